@@ -19,8 +19,19 @@ func genOps(r *rand.Rand) []byte {
 	ops := validOps()
 	a := &asm{}
 	n := 2 + r.Intn(40)
+	common := []int{PUSH1, PUSH2, PUSH0, PUSHT, PUSHNULL, NEWARRAY0, NEWSTRUCT0, NEWMAP, DUP, OVER, SWAP, PACK, APPEND, SETITEM,
+		DEPTH, UNPACK, VALUES, PICKITEM, POPITEM, REMOVE, CLEARITEMS, ROT, TUCK, DROP, INC, ADD, STSFLD0, LDSFLD0, STLOC0, LDLOC0}
+	if r.Intn(3) != 0 { // give the instructions something to work on
+		a.op(INITSSLOT, 2, INITSLOT, 2, 0)
+		for i := r.Intn(6); i >= 0; i-- {
+			a.op(common[r.Intn(8)])
+		}
+	}
 	for i := 0; i < n; i++ {
 		o := int(ops[r.Intn(len(ops))])
+		if r.Intn(2) == 0 {
+			o = common[r.Intn(len(common))]
+		}
 		if o == SYSCALL || o == CALLT || o == ABORT || o == ABORTMSG {
 			if r.Intn(4) != 0 {
 				continue
